@@ -3,6 +3,7 @@
 // every supported output type x input position x referenced output x selection x every single-item /
 // single-field deviation of a valid satisfaction x flag modifications, each executed on the real
 // Instance in lock-step with the reference session plan; verdict compared with verify_input().
+#include <array>
 #include "sessioncmp.hpp"
 #include "ref/vectors.hpp"
 
@@ -115,6 +116,23 @@ static void gen_c03(const std::string& tier, std::vector<Case>& cases) {
             auto pv = shapes_for(type, false)[1 % shapes_for(type, false).size()];
             gen::Spend S = gen::make_spend(type, shape_of(type, pv.first, pv.second), ht, 1, false);
             Case c; c.fund = S.fund; c.tx = S.tx; c.label = type + " hashtype=" + std::to_string(ht) + " valid"; c.klass = "valid-hashtype"; c.flags = F_STANDARD; cases.push_back(c);
+        }
+    }
+    // witness scripts, tapscript leaves and control blocks larger than one stack element (520 bytes): the element size limit
+    // applies to the initial stack only (BIP141 / BIP342), never to the script or the control block
+    for (std::string type : {"p2wsh-checksig", "p2tr-script"}) {
+        std::vector<std::array<int, 3>> v;   // pad, pad2, pathlen
+        for (int t : {177, 178, 179, 180, 181}) v.push_back({300, t, 1});
+        v.push_back({520, 520, 1}); v.push_back({300, 0, 1});
+        if (type == "p2tr-script") for (int pl : (th ? std::vector<int>{14, 15, 16, 17, 64, 127, 128} : std::vector<int>{15, 16, 128})) v.push_back({0, 0, pl});
+        for (auto& x : v) {
+            gen::Shape sh = shape_of(type, gen::is_taproot_type(type) ? 0 : 1, 1); sh.pad = x[0]; sh.pad2 = x[1];
+            gen::Spend S = gen::make_spend(type, sh, 1, x[2], false);
+            size_t script_size = type == "p2tr-script" ? S.leaf_script.size() : S.tx.vin[sh.pos].witness.back().size();
+            std::string base = type + " script=" + std::to_string(script_size) + "B" + (type == "p2tr-script" ? " control=" + std::to_string(S.control.size()) + "B" : "");
+            { Case c; c.fund = S.fund; c.tx = S.tx; c.label = base + " valid"; c.klass = "valid-large-script-or-control"; cases.push_back(c); }
+            std::vector<std::pair<std::string, Tx>> devs; deviations(S, false, devs);
+            for (auto& d : devs) { Case c; c.fund = S.fund; c.tx = d.second; c.select = -1; c.label = base + " " + d.first; c.klass = "large:" + klass_of(d.first); cases.push_back(c); }
         }
     }
     // the six real-chain pairs
